@@ -57,7 +57,7 @@ def fields_for(draw, cf, all_set=False):
 def data_bytes(draw, max_len=400):
     mode = draw(st.integers(0, 3))
     if mode == 0:
-        return None
+        return draw(st.sampled_from([None, None, b'']))     # b'' = an empty identifier (encodes to zero bytes)
     n = draw(st.integers(1, max_len))
     pat = draw(st.binary(min_size=1, max_size=16))
     return (pat * (n // len(pat) + 1))[:n]
